@@ -25,6 +25,31 @@ CHECKS = {
         note=TB + "Values (var_value*) are identified by integers; ov_theory iterates unordered_maps keyed by pointers, so clause creation order is not a function of the input: after each request the network is propagated and the clause database is compared modulo root values. assume/pop histories over guard literals are covered by C07/C08.",
         technique="Lean 4 theorems on the object-variable model (built on the proven encoder theorems) + differential correspondence + DPLL oracle",
         design="§6 C14"),
+    "C07": dict(
+        text="sat_core + clause without theories is modelled CONCRETELY in Lean (OratioModel/Sat/Core.lean: two watched literals, FIFO queue, trail with levels and reasons, first-UIP analyze, record with its sort, backjumping, assume/pop/next/check/simplify_db). 7 theorems C07_* (6,400 lines of lemmas, one inductive invariant incl. the reason and the watch invariants) prove for EVERY finite history of precondition-respecting calls and every fuel: every stored/learnt clause is entailed by the added clauses, every reported value by the added clauses and the standing decisions, a negative answer only on unsatisfiable problems (for check: together with decisions and assumptions), successful propagation reaches the unit-propagation fixpoint, a total assignment satisfies every clause ever added, next() adds exactly the negated decisions, and the constructors project onto the root-level model of C13. Tie: after every call the result, every recorded clause (observer hook), assignment, trail+levels+reasons, decisions, clause database in storage order and all watch lists are IDENTICAL between the real sat_core and the model (random k-CNF, pigeonhole, parity, constructors; 2,000 histories quick); DPLL entailment oracle on the implementation's outputs.",
+        note=TB + "Theories are abstracted away in this model (histories with theories: C09/C10/C08). Loops written with goto/while take a fuel argument; theorems hold for every fuel for which the model returns. std::sort in record() is modelled as stable insertion sort (learnt clauses in the runs stay below 17 literals).",
+        technique="Lean 4 invariant proof over all API histories of a concrete CDCL model + exact state-trace correspondence + DPLL oracle",
+        design="§6 C07, App. A.1"),
+    "C10": dict(
+        text="idl_theory and rdl_theory (one text up to the number type) are ONE generic Lean model (OratioModel/Net/Dl.lean) inside the network model (Net.lean: sat_core's propagate/assume/pop/next/check with the theory calls). 10 theorems C10_* prove for the integer instance, for all states satisfying the matrix invariant Exact (closed under triangle inequality, respects every enforced edge, every entry implied): the closed form of the incremental all-pairs update d' i j = min(d i j, d i f + w + d t j) and preservation of Exact (incl. matrix growth), tightness (each finite entry is attained by a valuation of the enforced constraints: exactly the tightest bound), infinite entries mean unbounded, conflicts are signalled exactly when the constraints are infeasible (asserted and negated constraints, -d-1 reversal), shortcuts of new_distance are valid. Tie: exact equality of results, recorded lemmas, SAT search state and of both theories' distance / predecessor / responsible-constraint state after every call (1,000 histories quick). Oracle: Floyd-Warshall over the implementation's own assignment, theory validity of every recorded clause (lazy DPLL(T)), completeness of propagation.",
+        note=TB + "PARTIAL: the algebraic theorems are proved for Int weights in the no-overflow range 4(n+1)K < LONG_MAX/2-1; the inf_rational instance shares every line of the model and the correspondence/oracle but its weight algebra is not proved. Validity of explanations (predecessor walk) is checked by the oracle on every recorded lemma, not proved.",
+        technique="Lean 4 theorems on the incremental APSP (closed form, exactness invariant, Bellman-Ford potentials) + exact state correspondence + Floyd-Warshall / DPLL(T) oracles",
+        design="§6 C10, App. A.2"),
+    "C12": dict(
+        text="The twenty sign/arity branches of new_lt..new_gt and the expression queries bounds/distance/equates are transcribed in Dl.newRel / boundsLin / distanceLin / equatesLin. 6 theorems C12_*: newRel posts exactly the constraints of the specification-side normal form relOut through new_distance (both instances); over the integers the normal form holds exactly when the relation between the two linear expressions holds, for all five relations, any non-zero coefficients, either variable order, one- and two-variable forms, and is rejected exactly when the operands are not an integer difference; bounds(l) is sound and the exact image of the variable-level distances for either sign; distance = bounds of the difference, equates = zero within the bounds of the difference. Tie: exact equality of returned literals, created constraints and query results on generated networks (all relation x shape x sign combinations). Oracle: independent normal form in Python, equivalence of the literal with the relation modulo theory and clauses.",
+        note=TB + "PARTIAL: the semantic theorem is proved for the integer instance; RDL by correspondence + oracle. Known finding: IDL expression queries over unbounded variables compute with the infinity sentinel.",
+        technique="Lean 4 theorems (refinement to a normal form + integer semantics) + differential correspondence + SMT-style oracle",
+        design="§6 C12"),
+    "C16": dict(
+        text="Lexical part: the lexer is modelled on signed bytes (OratioModel/Riddle/Lexer.lean); 10 theorems C16_* prove: every keyword/operator of the symbol enum - RE-EXTRACTED from riddle_lexer.h on every run (translator, Gen/Symbols.lean) - lexes under its documented spelling; maximal munch for identifiers vs keywords for ALL words; integer and decimal literals denote exactly the number they spell (canonical rational); white space and both comment forms (incl. `**/`) are transparent. Tie: exact token streams on ~10^4 generated byte strings; oracle: an independent longest-match tokenizer. Parser and evaluation parts are added by the parser model (C16Parser) and the end-to-end check.",
+        note=TB + "The grammar/precedence specification is the one documented in the property's anchor. `this` is read as an identifier (enumerator THIS_ID is never produced) - documented exception in C16_keyword_table.",
+        technique="Lean 4 theorems on the lexer model + translator for the symbol table + differential token-stream correspondence + independent tokenizer",
+        design="§6 C16"),
+    "C18": dict(
+        text="Input part: 3 theorems C18_* prove that for EVERY byte string the lexer model returns tokens ending in EOF or one of six reported errors - the model's own did-not-finish outcome is never produced and every next() consumes input. Tie: the token correspondence of C16 on valid, invalid, truncated and mutated inputs under a 2 s watchdog; API part: the histories of C07 and C10 replayed against builds with assertions on (ASan/UBSan in the thorough tier): any abort, assertion, sanitizer report, uncaught exception or hang is a violation with the history as replay.",
+        note=TB + "PARTIAL: memory safety, leaks and hangs inside the planner's search are runtime behaviours observed by sanitizers and watchdog during the runs, not proved; whole programs through read()+solve() are exercised by the end-to-end checks.",
+        technique="Lean 4 totality theorems for the lexer model + watchdog/sanitizer-instrumented differential runs",
+        design="§6 C18"),
 }
 
 PENDING = {
